@@ -79,6 +79,16 @@ def generate(rng, tier):
             dis.append((0, rpc, h))
     cases = []
     k = 1000
+    # one well-formed token that expires in 2 s, used at once and used again after its expiry (the same header text):
+    # served, then refused - no verdict on a token may outlive the token
+    reuse = [0, 14, 12, 11] if tier == "quick" else list(range(22))
+    for j in range(0, len(reuse), 4):
+        lines = [[0, 1]]
+        for rpc in reuse[j:j + 4]:
+            lines.append([4, rpc, 0, k % 150] + hdr(dict(GOOD, exp=2)))
+            k += 1
+        lines.append([2])
+        cases.append(("reuse%d" % j, lines))
     for mode, group in ((1, calls), (0, dis)):
         for i in range(0, len(group), 44):
             lines = [[0, mode]]
@@ -124,7 +134,24 @@ def monitor(lines, out):
     i = 0
     panics = 0
     for l in lines[1:]:
-        if l[0] == 1:
+        if l[0] == 4:
+            if i + 1 >= len(out):
+                return fails + ["malformed-output: output shorter than the case"]
+            rpc, k, h = l[1], l[3], l[4:]
+            first, second = out[i][0], out[i + 1][0]
+            i += 2
+            if first != SERVED.get(rpc, 0):
+                fails.append("C06-served: %s with a well-formed token (expiring in 2 s) answered %d" % (RPCS[rpc], first))
+            elif rpc in WRITERS:
+                values[rpc] = k
+            elif rpc == 19:
+                registered.add(k)
+            if second != 16:
+                fails.append("C06-expired-reuse: %s with the SAME token, re-sent after its expiry, answered %d, not "
+                             "UNAUTHENTICATED" % (RPCS[rpc], second))
+                if second == 0 and rpc in WRITERS:
+                    values[rpc] = k
+        elif l[0] == 1:
             if i >= len(out):
                 return fails + ["malformed-output: output shorter than the case"]
             rpc, k, h = l[1], l[3], l[4:]
@@ -169,6 +196,8 @@ def monitor(lines, out):
 
 
 def nontrivial(lines, out):
+    if any(l[0] == 4 for l in lines[1:]):
+        return hash(tuple(map(tuple, lines)))
     adm = [admitted(l[4:]) for l in lines[1:] if l[0] == 1]
     return hash(tuple(map(tuple, lines))) if any(adm) and not all(adm) else None
 
